@@ -1139,6 +1139,14 @@ def _le_(a, b):
 
 
 
+def _operands(a, b = None):
+    """
+    the operands of add_ / mul_ / df_sum / df_mean / df_std as a list, a numpy integer scalar among them as the python integer it is:
+    numpy's scalar arithmetic wraps around silently within the width (np.int8(100) * np.int8(100) is 16, np.uint8(200) + np.uint8(200) is 144),
+    so scalars folded before they meet a timeseries gave a result that depended on the order of the list
+    """
+    return [int(df) if is_int(df) and isinstance(df, np.integer) else df for df in as_list(a) + as_list(b)]
+
 def add_(a, b = None, join = 'ij', method = None, columns = 'ij'):
     """
     Adds two timeseries/numbers.
@@ -1176,7 +1184,7 @@ def add_(a, b = None, join = 'ij', method = None, columns = 'ij'):
     >>> assert set(add_(a,b, columns = 'oj').b.values) == set([2+2])
     
     """
-    dfs = as_list(a) + as_list(b)
+    dfs = _operands(a, b)
     f = lambda a, b: _add_(a, b, join = join, method = method, columns = columns)
     return reducer(f, dfs)
     
@@ -1224,7 +1232,7 @@ def mul_(a, b = None, join = 'ij', method = None, columns = 'ij'):
     >>> assert set(mul_(a,b, columns = 'oj').a.values) == set([1])
     >>> assert set(mul_(a,b, columns = 'oj').b.values) == set([2*2])    
     """
-    dfs = as_list(a) + as_list(b)
+    dfs = _operands(a, b)
     f = lambda a, b: _mul_(a, b, join = join, method = method, columns = columns)
     return reducer(f, dfs)
 
@@ -1473,7 +1481,7 @@ def df_sum(a, b = None, join = 'oj', method = None, columns = 'oj', exc = np.nan
     1  4.0  NaN  2.0
     
     """
-    dfs = as_list(a) + as_list(b)
+    dfs = _operands(a, b)
     dfs = df_sync(dfs, join = join, method = method, columns = columns)
     masks = [_mask(df, exc) for df in dfs]
     clean_dfs = [mask2v(df, mask, 0.0) for df, mask in zip(dfs, masks)]
@@ -1501,7 +1509,7 @@ def df_mean(a, b = None, join = 'oj', method = None, columns = 'oj', exc = np.na
     1  2.0  NaN  2.0
 
     """
-    dfs = as_list(a) + as_list(b)
+    dfs = _operands(a, b)
     dfs = df_sync(dfs, join = join, method = method, columns = columns)
     masks = [_mask(df, exc) for df in dfs]
     clean_dfs = [mask2v(df, mask, 0.0) for df, mask in zip(dfs, masks)]
@@ -1529,7 +1537,7 @@ def df_std(a, b = None, join = 'oj', method = None, columns = 'oj', exc = np.nan
     1  2.0  NaN  2.0
 
     """
-    dfs = as_list(a) + as_list(b)
+    dfs = _operands(a, b)
     dfs = df_sync(dfs, join = join, method = method, columns = columns)
     masks = [_mask(df, exc) for df in dfs]
     clean_dfs = [mask2v(df, mask, 0.0) for df, mask in zip(dfs, masks)]
